@@ -37,6 +37,7 @@ import (
 	"github.com/nginx/nginx-gateway-fabric/internal/mode/static/state/dataplane"
 	"github.com/nginx/nginx-gateway-fabric/internal/mode/static/state/graph"
 	"github.com/nginx/nginx-gateway-fabric/internal/mode/static/state/resolver"
+	"github.com/nginx/nginx-gateway-fabric/verifharness/pipeline"
 	"github.com/nginx/nginx-gateway-fabric/verifharness/rng"
 )
 
@@ -602,7 +603,7 @@ func genSeq(r *rng.R) seqIn {
 func Run(args []string) int {
 	fs := flag.NewFlagSet("c13", flag.ContinueOnError)
 	seed := fs.Uint64("seed", 1, "seed")
-	mode := fs.String("mode", "resolve", "resolve|pipe|plus|e2e|seq|replay")
+	mode := fs.String("mode", "resolve", "resolve|pipe|plus|e2e|seq|faults|pipeE|replay")
 	n := fs.Int("n", 100, "number of cases")
 	maxOps := fs.Int("maxops", 8, "maximum sequence length (plus)")
 	if err := fs.Parse(args); err != nil {
@@ -659,6 +660,21 @@ func Run(args []string) int {
 				if json.Unmarshal(raw.In, &in) == nil {
 					emit(line{"seq", id, in, runSeq(in)})
 				}
+			case "faults":
+				var in faultsIn
+				if json.Unmarshal(raw.In, &in) == nil {
+					emit(line{"faults", id, in, runFaults(in)})
+				}
+			case "pipeE":
+				var in struct {
+					Objs string `json:"objs"`
+				}
+				if json.Unmarshal(raw.In, &in) == nil {
+					if objs, err := pipeline.DecodeObjects([]byte(in.Objs)); err == nil {
+						pin, pout := runPipeE(objs)
+						emit(line{"pipeE", id, pin, pout})
+					}
+				}
 			}
 		}
 		return 0
@@ -682,6 +698,12 @@ func Run(args []string) int {
 		case "seq":
 			in := genSeq(r)
 			emit(line{"seq", i, in, runSeq(in)})
+		case "faults":
+			in := genFaults(r, *maxOps)
+			emit(line{"faults", i, in, runFaults(in)})
+		case "pipeE":
+			pin, pout := runPipeE(genPipeE(r))
+			emit(line{"pipeE", i, pin, pout})
 		default:
 			fmt.Fprintln(os.Stderr, "unknown mode")
 			return 2
